@@ -5,8 +5,8 @@ unset GOTOOLCHAIN GOFLAGS GOPROXY GOSUMDB
 #  patch applies + builds; unedited suite passes with it; demo fails with it; demo passes without it.
 # Then runs every static check against the changed tree. Writes /verif/seeded/<PROP>-<i>/.
 set -u
-P=$1; I=$2
-SRC=/tmp/wt_$P/_out/$I
+P=$1; I=$2; WT=${3:-$1}
+SRC=/tmp/wt_$WT/_out/$I
 DST=/verif/seeded/$P-$I
 [ -f $SRC/patch.diff ] || { echo "$P-$I: no patch"; exit 2; }
 mkdir -p $DST
@@ -32,7 +32,7 @@ if [ $builds = yes ]; then
   if go test -mod=mod -vet=off -count=1 -run 'Demo|ZZ' -timeout 120s ./leader/ > $DST/demo_with.log 2>&1; then demo_with=pass; else demo_with=fail; fi
   # static checks against the changed tree
   rm -f leader/zz_demo_test.go
-  /verif/bin/electlint -p all -repo $D -no-evidence > $DST/checks.log 2>&1
+  ${BIN:-/verif/bin/electlint} -p all -repo $D -no-evidence > $DST/checks.log 2>&1
   git apply -R --whitespace=nowarn $DST/patch.diff
   cp $SRC/demo_test.go leader/zz_demo_test.go
   if go test -mod=mod -vet=off -count=1 -run 'Demo|ZZ' -timeout 120s ./leader/ > $DST/demo_without.log 2>&1; then demo_without=pass; else demo_without=fail; fi
